@@ -33,11 +33,11 @@ ID = "C18"
 LEVEL = "exploration"
 ENGINE = "seq"
 RUNS = {"quick": 150_000, "thorough": 10_000_000}
-RULE = ("runs 0..28824 enumerate, per loop, every limit value 0..4 (swarm: both limits, 25 pairs) x every peer script of "
+RULE = ("runs 0..30234 enumerate, per loop, every limit value 0..4 (swarm: both limits, 25 pairs) x every peer script of "
         "length <=3 over the loop's alphabet with the last symbol repeating forever (heal: {non-JSON, schema-invalid, "
         "valid, echo the error, raise RuntimeError, raise TypeError from its own body, raise the library's ProviderUnavailableError, never-repeating} x {plain, error-tagging} chaperone x {repeat-last, cycle}; swarm: "
         "{same output, fresh output, marker, lower-case marker, near-miss of a marker (letters split over two words, a "
-        "digit, punctuation or a line break), a marker split over two consecutive outputs, raise, delegate a sub-task to the same supervisor re-entrantly}; tools: {one tool, unknown tool, two tools, final, raise, raising tool} x final completion "
+        "digit, punctuation or a line break), a marker split over two consecutive outputs, raise, delegate a sub-task to the same supervisor re-entrantly}; tools: {one tool, unknown tool, two tools, final, raise, raising tool, ProviderUnavailableError} x final completion "
         "{text, empty}); later runs sample scripts of length <=8 over wider alphabets, cycling tails, per-worker "
         "scripts, entropy thresholds, summarizer behaviours, repeated supervise / heal / transcribe_with_tools on one "
         "long-lived object, re-entrant delegation after k worker deaths, confidence decays, misfold observers (recording, "
@@ -80,7 +80,8 @@ EXPECT_PROBES = ("heal_degraded_at_limit", "heal_healed_at_limit", "heal_valid_f
                  "tools_second_call_on_same_nucleus", "heal_generator_raised_builtin_type",
                  "swarm_worker_keeps_no_memory", "swarm_worker_edits_its_memory", "tools_large_payload",
                  "heal_generator_raised_provider_error", "swarm_near_miss_output", "swarm_step_overran_timeout",
-                 "swarm_marker_split_over_two_outputs", "tools_ordinary_call_after_unexecuted_request")
+                 "swarm_marker_split_over_two_outputs", "tools_ordinary_call_after_unexecuted_request",
+                 "tools_provider_unavailable_at_round_k")
 
 MARKERS = ("SUCCESS", "SOLVED", "COMPLETE", "DONE", "FINISHED")
 SCOPE = None
@@ -139,7 +140,7 @@ def _table():
             for s in _scripts("suMRdDnj"):
                 t.append(("swarm", regen, steps, s))
     for lim in range(5):
-        for s in _scripts("TK2FRE"):
+        for s in _scripts("TK2FREU"):
             for final in ("final answer", ""):
                 t.append(("tools", lim, s, final))
     derive("C18", "table-order").shuffle(t)      # so that a short batch touches all three loops
@@ -241,9 +242,11 @@ def gen(rng, tier, i):
                            hints_mut=rng.random() < 0.3)
     shape = weighted(rng, [(3, "forever"), (3, "final_at_limit"), (2, "free")])
     if shape == "free":
-        s = [rng.choice("TK2FRE3") for _ in range(rng.randint(0, 8))]
+        s = [rng.choice("TK2FRE3UUY") for _ in range(rng.randint(0, 8))]
     elif shape == "forever":
         s = [rng.choice("TK2E3") for _ in range(rng.randint(1, 5))]
+        if rng.random() < 0.3:                   # ... until the provider becomes unavailable in round k
+            s[rng.randrange(len(s)):] = [rng.choice("UUY")]
     else:
         s = [rng.choice("TK2E3") for _ in range(max(0, lim - 1))] + ["F"]
     calls_n = weighted(rng, [(3, 1), (2, 2), (0.6, 3)])
@@ -681,6 +684,10 @@ class _Provider:
         if sym == "R":
             self.k.fault("collab_raise")
             raise RuntimeError("provider down")
+        if sym in ("U", "Y"):               # the provider goes away mid-conversation, with the library's own error types
+            self.k.fault("collab_raise")
+            self.k.probe("tools_provider_unavailable_at_round_%s" % ("1" if self.cwt == 1 else "k"))
+            raise (ProviderUnavailableError("connection reset") if sym == "U" else QuotaExhaustedError("429"))
         if sym == "F":
             return self._resp(self.inloop_final), []
         self.k.fault("collab_adversarial_value")
@@ -695,6 +702,20 @@ class _ToolProvider(_Provider):
 
 
 def _run_tools(plan, k, tr):
+    # the environment is part of the world: no provider API keys, so that "whatever provider is reachable now" is always
+    # the repo's MockProvider (deterministic, no network) whatever the machine the check runs on has exported
+    import os
+    import warnings
+    saved = {v: os.environ.pop(v) for v in ("ANTHROPIC_API_KEY", "OPENAI_API_KEY", "GEMINI_API_KEY") if v in os.environ}
+    try:
+        with warnings.catch_warnings():
+            warnings.simplefilter("ignore")
+            return _run_tools_world(plan, k, tr)
+    finally:
+        os.environ.update(saved)
+
+
+def _run_tools_world(plan, k, tr):
     cfg, script = plan["config"], plan["fakes"]["provider"]
     lim = cfg["max_iterations"]
     site = "tools/" + _cls(lim)
@@ -752,7 +773,8 @@ def _run_tools(plan, k, tr):
 
 
 def _tools_once(k, tr, cfg, script, lim, site, prov, nuc, m, exec_rounds, runs, blank_final, auto):
-    out = call(nuc.transcribe_with_tools, "what is 6*7?", m, None, lim, auto, tracer=tr)
+    # the prompt names a tool, so that the repo's MockProvider (what Nucleus falls back to) would keep asking for it
+    out = call(nuc.transcribe_with_tools, "use calc: what is 6*7?", m, None, lim, auto, tracer=tr)
     k.ev("tools", [out.brief()[0], prov.cwt, prov.plain, runs[0]])
 
     if out.kind == "step_budget":
@@ -764,6 +786,14 @@ def _tools_once(k, tr, cfg, script, lim, site, prov, nuc, m, exec_rounds, runs, 
     if len(exec_rounds) > lim:
         k.violation("tool_rounds", "over_budget_tool_executions", site,
                     f"tools ran in {len(exec_rounds)} rounds, max_iterations = {lim}")
+    else:
+        # rounds served by anybody else than this fake (a fail-over provider) are invisible to its counter, but every round
+        # runs at most `width` tools (the widest round of the script; the MockProvider asks for one), so the number of tool
+        # executions of the whole call is bounded by max_iterations x width
+        width = max([1] + [{"2": 2, "3": 3}.get(sy, 1) for sy in script])
+        if runs[0] > lim * width:
+            k.violation("tool_rounds", "over_budget_tool_executions", site,
+                        f"{runs[0]} tool executions in one call, max_iterations = {lim} rounds of at most {width} call(s)")
     if prov.plain > 1:
         k.violation("tool_rounds", "more_than_one_final_completion", site,
                     f"{prov.plain} plain completions; provider calls in order: {''.join(prov.order)}")
